@@ -31,7 +31,8 @@ RULE = ('(streams) momentum, SMA and volatility signals built over 1-5 assets wi
         'assets; sessions: >= 1 late entrant.'
         " Round-10 reach: a quarter of the sessions build the signals collection on a data handler of its own (the same files with the opposite price adjustment); buffers and values are compared with that feed's closes."
         " Round-11 reach: stream op `refused_update` (one asset carries a non-positive print, the collection update raises part-way, the caller carries on: every window holds its closes with or without that day's and later updates deliver their own prices); sessions whose collection was fed the 1-5 business days before the start directly."
-        " Round-12 reach: entry instants of dynamic-universe streams written in Tokyo / New York time.")
+        " Round-12 reach: entry instants of dynamic-universe streams written in Tokyo / New York time."
+        " Round-13 reach: a second momentum signal object configured exactly like the first (`momentum_b`).")
 ASSUMPTIONS = [
     'positive prices; lookbacks 1..30; up to 5 assets; streams up to 60 steps; sessions up to 60 days',
     'in sessions the market has data before every entry (an unpriced asset is C06/C07\'s subject)',
@@ -60,7 +61,7 @@ def o_vol(h, n):
     return math.sqrt(math.fsum((x - m) ** 2 for x in rets) / len(rets)) * math.sqrt(252)
 
 
-ORACLE = {'momentum': o_mom, 'sma': o_sma, 'vol': o_vol}
+ORACLE = {'momentum': o_mom, 'momentum_b': o_mom, 'sma': o_sma, 'vol': o_vol}
 
 
 def close_enough(a, b, scale=0.0):
@@ -70,7 +71,7 @@ def close_enough(a, b, scale=0.0):
 def sig_scale(name, h, lb):
     """Natural magnitude of a signal's intermediate values: momentum is (product of gross returns) - 1 and the
     code re-adds 1 to each simple return, so it carries float noise relative to 1 + momentum, not to momentum."""
-    if name == 'momentum':
+    if name in ('momentum', 'momentum_b'):
         return 1.0
     if name == 'vol':
         w = h[-(lb + 1):]
@@ -420,6 +421,9 @@ def sessions(draw):
         sig['sma'] = sorted(set(sig['sma']) | {a['fast'], a['slow']})
     if a['kind'] == 'invvol' and a['lookback'] not in sig['vol']:
         sig['vol'].append(a['lookback'])
+    if draw(st.sampled_from([False, False, True])):
+        sig['momentum_b'] = list(sig['momentum'])        # a second momentum signal object with the very same configuration
+        lab = lab + ['two_signals_configured_alike']
     cfg['signals'] = sig
     if a['kind'] == 'fixed' and draw(st.sampled_from([False, False, True])) and sessgen.add_watched(
             draw, cfg, mk, names, d0, n, seed):
